@@ -29,6 +29,7 @@ def main():
             t0 = time.time()
             try:
                 env.seed_all(int(case.get("seed", 0)))
+                env.restore_dependency_globals()
                 r = mod.run_case(case)
             except BaseException as e:  # noqa
                 r = {
